@@ -204,6 +204,9 @@ def run_hist(key):
             F, mon = H.update_mon(child.m, prm, child.F, fl, st.t, t1)
         except Exception as e:
             res["notes"]["rejected_updates"] = res["notes"].get("rejected_updates", 0) + 1
+            if isinstance(e, H.UpdateTimeout):
+                V(res, key, "update_returns", {"exception": "UpdateTimeout"}, hist=hist)
+                raise H.StopExploration()
             return None
         child.F, child.t = np.asarray(F), t1
         child.N += 1
@@ -251,13 +254,16 @@ def run_hist(key):
         ns, nt = H.bfs(root, H.STEP_LETTERS, key["depth"], step)
     else:
         nt = 0
-        for k in (1, 2, 5, 10, 25):
-            st = root
-            for _ in range(k):
-                st = step(st, (key["flow"], 1.0 / k))
-                nt += 1
-                if st is None:
-                    break
+        try:
+            for k in (1, 2, 5, 10, 25):
+                st = root
+                for _ in range(k):
+                    st = step(st, (key["flow"], 1.0 / k))
+                    nt += 1
+                    if st is None:
+                        break
+        except H.StopExploration:
+            pass
         ns = nt + 1
     res["states"], res["trans"] = ns, nt
     res["outcomes"] += obs[:40]
